@@ -141,7 +141,7 @@ class Ref:
             self.log.append(self.mk(n[1]))
             return None
         if t == "logvar":
-            self.log.append(v[n[1]])
+            self.log.append(self.mk(v[n[1]]))
             return None
         if t == "lit":
             return self.mk(n[1])
